@@ -38,20 +38,23 @@ _G = pick(3, 4)
 BOUNDS = (
     "return_to: scheme in {http,https} + '://' + g1 + H1 + g2 + H2 + g3 (+ '/x'), H in {localhost, allowlisted host, evil.example, ''}, "
     "g* = any ASCII strings (0..127 except '[' and ']') with len<=2 each and total len<=%d; ports: H + ':' + up to 3 symbolic digits; "
+    "host names: scheme://HOST(/x|:3000/x|) with HOST any string over [A-Za-z0-9._%%-] of length 1..%d, every character symbolic; "
     "original URL: (''|'/'|prefix) + any ASCII string len<=%d + 'evil.example/x' with prefix in {'', '/vgi'}; cookie: symbolic integer clock / max_age, "
-    "tamper = one byte changed anywhere, truncation or extension" % (_G, pick(3, 4))
+    "tamper = one byte changed anywhere, truncation or extension" % (_G, pick(11, 14), pick(3, 4))
 )
 OUTSIDE = (
     "non-ASCII input (IDNA mapping, NFKC), IPv6 literals ('[' and ']' excluded), percent-escapes that decode to non-ASCII host labels, "
-    "IPv4 number forms other than the literal 127.0.0.1, more than %d symbolic characters per URL, the middleware's full request flow, "
+    "more than %d symbolic characters per URL that may be delimiters, host names longer than the bound, the middleware's full request flow, "
     "dot-segment normalisation and segment-boundary of the prefix match in _validate_original_url (same-origin either way)" % _G
 )
 ASSUMPTIONS = [
-    "WHATWG reference (whatwg_http_origin / whatwg_relative_same_origin, ~70 lines in this file) is part of the trusted base; validated each run on a table from the URL standard",
+    "WHATWG reference (whatwg_http_origin / whatwg_relative_same_origin / whatwg_loopback_host incl. the IPv4 parser, ~140 lines in this file) is part of the trusted base; validated each run on tables from the URL standard",
     "sx string model: ASCII char arrays with z3 Int code points (harness/_sx.py); validated each run against real str and, through the real validators, on random concrete URLs",
     "_validate_return_to has f-strings: it is run from its live source with JoinedStr desugared to concatenation (sx.load); urlparse/urlsplit/_validate_original_url/_is_localhost run as the same bytecode",
     "allowed_origins := linear-scan container with the same membership semantics as frozenset (hashing a symbolic key is not possible)",
     "a URL the WHATWG parser rejects (failure) counts as safe: the browser does not navigate",
+    "loopback origin := the WHATWG host is the name localhost, an IPv4 address in 127.0.0.0/8 (any spelling the standard's IPv4 parser reads as one: 127.1, 0x7f.0.0.1, 2130706433 ...) or [::1]; "
+    "'localhost.' and '*.localhost' stay ordinary domains in the host parser (whether they reach loopback is resolver-specific) and are not counted as loopback",
 ]
 
 # ---------------------------------------------------------------------------
@@ -118,7 +121,88 @@ def _authority_host_port(rest):
     if port:
         if not port.isdigit():
             return FAIL  # port-invalid
-    return host.lower(), port
+    host = host.lower()
+    if _ends_in_a_number(host) and _ipv4(host) is FAIL:
+        return FAIL  # host parser: "If asciiDomain ends in a number, return the result of IPv4 parsing asciiDomain"
+    return host, port  # an IPv4 host is returned as spelled (not re-serialised); whatwg_loopback_host classifies it
+
+
+# --- host parser, IPv4 part (https://url.spec.whatwg.org/#concept-ipv4-parser).  Values are Python ints for
+# concrete digits and z3 integer terms for symbolic ones; every test on them goes through _sx.branch.
+
+_HEXD = "0123456789abcdefABCDEF"
+
+
+def _one_of(ch, chars: str) -> bool:
+    return not ch.strip(chars)  # one character (str or symbolic) against a concrete set
+
+
+def _ipv4_number(part):
+    """IPv4 number parser: the value, or FAIL."""
+    if not part:
+        return FAIL
+    base, digits = 10, "0123456789"
+    if len(part) >= 2 and part[:1] == "0":
+        if _one_of(part[1:2], "xX"):
+            part, base, digits = part[2:], 16, _HEXD
+        else:
+            part, base, digits = part[1:], 8, "01234567"
+    v = 0  # "If input is the empty string, then return (0, true)"
+    for ch in part:
+        if not _one_of(ch, digits):
+            return FAIL
+        v = v * base + (_sx._hexval(ch._e[0]) if type(ch) is _sx.SymStr else int(ch, 16))
+    return v
+
+
+def _ipv4_parts(host) -> list:
+    parts = host.split(".")
+    if len(parts) > 1 and not parts[-1]:
+        parts = parts[:-1]  # one trailing dot is dropped
+    return parts
+
+
+def _ends_in_a_number(host) -> bool:
+    last = _ipv4_parts(host)[-1]
+    if last and last.isascii() and last.isdigit():
+        return True
+    return _ipv4_number(last) is not FAIL
+
+
+def _ipv4(host):
+    """IPv4 parser: the 32-bit address (int or z3 term), or FAIL."""
+    parts = _ipv4_parts(host)
+    if len(parts) > 4:
+        return FAIL
+    nums = []
+    for p in parts:
+        n = _ipv4_number(p)  # an empty part is a failure
+        if n is FAIL:
+            return FAIL
+        nums.append(n)
+    for n in nums[:-1]:
+        if _sx.branch(n > 255):
+            return FAIL
+    if _sx.branch(nums[-1] >= 256 ** (5 - len(nums))):
+        return FAIL
+    v = nums[-1]
+    for i, n in enumerate(nums[:-1]):
+        v = v + n * 256 ** (3 - i)
+    return v
+
+
+def whatwg_loopback_host(host) -> bool:
+    """Is this (already parsed, lower-cased) WHATWG host a loopback literal: the name localhost, an IPv4 address in
+    127.0.0.0/8 in any spelling the IPv4 parser reads as one, or [::1]?  A name that merely contains such a
+    spelling (127.0.0.1.evil.example, localhost.evil.example) is a DNS name."""
+    if host == "localhost" or host == "[::1]":
+        return True
+    if not _ends_in_a_number(host):
+        return False
+    v = _ipv4(host)
+    if v is FAIL:
+        return False
+    return _sx.branch(v >= 127 * 2**24) and _sx.branch(v < 128 * 2**24)
 
 
 def whatwg_http_origin(url):
@@ -217,8 +301,59 @@ _REL_TABLE = [
 ]
 
 
+_HOST_TABLE = [
+    # (host as written in http://<host>/x, expected) - expected: FAIL = the URL does not parse, True = loopback literal,
+    # False = anything else.  URL Standard 3.5 (ends-in-a-number checker, IPv4 parser, IPv4 number parser); the
+    # expectations were cross-checked once against an independent WHATWG implementation (node's `new URL`).
+    ("localhost", True),
+    ("LOCALHOST", True),
+    ("127.0.0.1", True),
+    ("127.0.0.2", True),
+    ("127.255.255.255", True),
+    ("127.0.0.1.", True),  # one trailing dot is dropped
+    ("127.1", True),  # the last number fills the remaining bytes
+    ("127.0.1", True),
+    ("0x7f.1", True),
+    ("0x7F.0.0.0x1", True),
+    ("0177.0.0.1", True),  # octal
+    ("2130706433", True),
+    ("017700000001", True),
+    ("0x7f000001", True),
+    ("127.0.0.0x", True),  # "0x" is the number 0
+    ("127.", False),  # the single number 127 = 0.0.0.127
+    ("127", False),
+    ("128.0.0.1", False),
+    ("126.255.255.255", False),
+    ("1.2.3.4", False),
+    ("0", False),
+    ("127.0.0.1.evil.example", False),  # last label is not a number: a domain
+    ("127.evil.example", False),
+    ("127.0.0.1-login.evil.example", False),
+    ("127.0.0.1x", False),
+    ("localhost.evil.example", False),
+    ("localhost.", False),  # a domain other than the literal name
+    ("127.0.0.1..", False),  # two trailing dots: the last label is empty, a domain
+    ("1.2.3.4.5", FAIL),  # more than four numbers
+    ("127.0.0.1.2", FAIL),
+    ("256.0.0.1", FAIL),
+    ("127.0.0.256", FAIL),
+    ("127.0.65536", FAIL),
+    ("127.16777216", FAIL),
+    ("4294967296", FAIL),
+    ("1.2.3.08", FAIL),  # ends in a number, but 08 is not octal
+    ("foo.0x", FAIL),  # ends in a number ("0x" = 0), "foo" is not one
+    ("127..1", FAIL),  # empty part
+    ("0x100.1.1.1", FAIL),
+]
+
+
 def _check_reference() -> list[str]:
     bad = []
+    for h, want in _HOST_TABLE:
+        ref = whatwg_http_origin("http://" + h + "/x")
+        got = FAIL if ref is FAIL else whatwg_loopback_host(ref[1])
+        if got != want:
+            bad.append(f"host {h!r}: reference says {got!r}, standard says {want!r}")
     for u, want in _REF_TABLE:
         got = whatwg_http_origin(u)
         if got != want:
@@ -265,7 +400,6 @@ _PORT_ORIGIN = "https://good.example:8443"
 _ALLOWED = frozenset(_LIVE_ALLOWED + [_PORT_ORIGIN])
 _ALLOW_SCAN = _Scan(sorted(_ALLOWED))
 _ALLOWED_HOST = up.urlsplit(_LIVE_ALLOWED[0]).hostname or "allowed.example"
-_LOOPBACK = ("localhost", "127.0.0.1", "[::1]")
 _HOSTS = ("localhost", _ALLOWED_HOST, "evil.example", "")
 _PORT_HOSTS = _HOSTS[:3] + (up.urlsplit(_PORT_ORIGIN).hostname,)
 _EXCL = "[]"
@@ -285,7 +419,7 @@ def _safe_host_level(ref) -> bool:
     scheme, host, _port = ref
     if "%" in host:
         return False
-    if host in _LOOPBACK:
+    if whatwg_loopback_host(host):
         return True
     for o in sorted(_ALLOWED):
         sp = up.urlsplit(o)
@@ -302,7 +436,7 @@ def _safe_origin(ref) -> bool:
     scheme, host, port = ref
     if "%" in host:
         return False
-    if host in _LOOPBACK:
+    if whatwg_loopback_host(host):
         return True  # loopback, any port
     return _origin_text(ref) in _ALLOW_SCAN
 
@@ -620,6 +754,72 @@ def return_to_percent_encoded_delimiters(budget: float, replay=None) -> dict:
             break
         done += 1
     return _finish(ex, _result(ex, t0), done, len(roots), _replay_pct)
+
+
+# --- (a3) the host itself is symbolic: which names count as loopback / allowlisted -----------------
+
+_HOST_ALPHA = "abcdefghijklmnopqrstuvwxyzABCDEFGHIJKLMNOPQRSTUVWXYZ0123456789.-_%"
+_HOST_MAX = pick(11, 14)
+_HOST_FRAMES = pick(
+    [("", "/x"), ("", ":3000/x"), ("", "")],
+    [("", "/x"), ("", ":3000/x"), ("", ""), ("u@", "/x"), ("", "?q"), ("", ":80"), ("", "." + _ALLOWED_HOST + "/x"), (_ALLOWED_HOST + ".", "/x")],
+)
+
+
+def _host_url(a: dict, h):  # noqa: ANN001
+    return a["scheme"] + "://" + a["pre"] + h + a["post"]
+
+
+def _replay_host_name(args: dict) -> dict:
+    url = _host_url(args, args["host"])
+    try:
+        r = pk._validate_return_to(url, _ALLOWED)
+    except ValueError:
+        r = ""
+    ref = whatwg_http_origin(r or url)
+    if r and not _safe_origin(ref):
+        where = _origin_text(ref) if ref[0] != "other" else f"a {ref[1]}: URL"
+        return {
+            "verdict": "VIOLATION", "replayed": True, "signature": "C37:return_to:host-not-loopback-nor-allowlisted",
+            "detail": f"_validate_return_to({url!r}, {sorted(_ALLOWED)}) accepts, but to a WHATWG browser {where!r} is neither an allowlisted origin nor a loopback literal "
+            "(localhost, an IPv4 address in 127.0.0.0/8, [::1]): the browser goes wherever that host points; the flow appends #token=…&client_secret=… to this URL",
+        }
+    return {"verdict": "INCONCLUSIVE", "detail": f"solver witness {url!r} did not reproduce on the real _validate_return_to"}
+
+
+@task(q=100, t=900, engine="sx", encoded=[pk._validate_return_to, pk._is_localhost, up.urlsplit.__wrapped__],
+      bound="scheme in {http,https} + '://' + pre + HOST + post, HOST = any string over [A-Za-z0-9._%%-] of every length 1..%d (all characters symbolic), (pre, post) in %r (a sub-/super-domain of an allowlisted host is another origin); "
+            "accepted => the WHATWG host is localhost / parses as an IPv4 address in 127.0.0.0/8 / belongs to an allowlisted origin" % (_HOST_MAX, _HOST_FRAMES),
+      stubs=["allowed_origins := linear-scan container", "urlsplit := urlsplit.__wrapped__ (lru_cache bypassed)"])
+def return_to_host_name_symbolic(budget: float, replay=None) -> dict:
+    if replay is not None:
+        return _replay_host_name(replay)
+    t0 = time.process_time()
+    pre = _preflight(40)
+    if pre:
+        return pre
+    ex = _sx.Explorer(budget - (time.process_time() - t0))
+    roots = [({"scheme": s, "pre": a, "post": b}, n) for s in ("http", "https") for a, b in _HOST_FRAMES for n in range(1, _HOST_MAX + 1)]
+    done = 0
+    for c, n in roots:
+        def body():
+            h = _sx.sym("h", n, only=_HOST_ALPHA)
+            r = _call_vrt(_vrt, _host_url(c, h), _ALLOW_SCAN)
+            if not r:
+                return True, "rejected"
+            if _safe_origin(whatwg_http_origin(r)):  # the redirect target = what the validator returns
+                return True, "accepted-safe"
+            return False, "accepted-unsafe"
+
+        before = len(ex.cex)
+        ex.run(body, label=f"{c['scheme']}://{c['pre']}<host:{n}>{c['post']}")
+        if len(ex.cex) > before:
+            ex.cex[-1]["args"] = dict(c, host=_sx.model_str(ex.cex[-1]["model"], "h", n))
+            break
+        if ex.timed_out:
+            break
+        done += 1
+    return _finish(ex, _result(ex, t0), done, len(roots), _replay_host_name)
 
 
 # --- (b) return_to: the port is part of the origin --------------------------------------------
